@@ -123,3 +123,6 @@ func vh_C01_L9_earliest_chunk_always_retransmitted() { vh_C06_L2_abandoned_never
 // its bitmap (= C05.S1), and a too-small read never consumes the message (= C18.L3).
 func vh_C01_L10_skip_clears_exactly_its_range() { vh_C05_step_clear_range() }
 func vh_C01_L10_short_read_keeps_the_message()  { vh_C18_L3_short_buffer() }
+
+// C01.L11: a message that arrives between a timed-out read and the next one is not lost (= C18.L4).
+func vh_C01_L11_data_arriving_after_a_timed_out_read_is_kept() { vh_C18_L4_read_deadline() }
